@@ -8,6 +8,7 @@ PROPS = {
     "C01": "c01_sequence",
     "C02": "c02_times",
     "C03": "c03_operators",
+    "C04": "c04_not",
 }
 
 
